@@ -20,14 +20,14 @@ func init() {
 		Level: "exploration",
 		Rule: "cases: histories of up to 40 InsertObject / DeleteObject / SetResources calls on one PolicyEngine - empty at first and filled one by one or through the bulk setter, or created by NewPolicyEngineWithObjects from the initial objects - (pods with controller owners - several per owner - relabelled, re-ported, added, deleted; namespaces inserted, relabelled, deleted; NetworkPolicies inserted, deleted, deleted+reinserted changed; ANPs inserted in non-priority order and deleted through the inserted or an equal fresh object; the BANP inserted, deleted, replaced; deletes of never-inserted objects of every kind; ClearResources followed by the return of the namespaces and pods with only some of the policies; a SetResources call that fails half-way, judged against both readings of what a failed batch leaves behind), with a fixed query set (pod pairs x boundary ports x TCP/UDP) asked after every step; " +
 			"oracle: the history engine's answer must equal the answer of a fresh engine built with NewPolicyEngineWithObjects from the objects current at that moment (the reference model is consulted too: where the comparison engine and the model disagree, an engine built for that single question arbitrates - the comparison engine answers many questions and may be misled by its own memory -, and if that one disagrees with the model too the query is not judged here); the engine's own cache-hit counter, read around every query, says which answers came out of the cache; " +
-			"non-trivial = at least one answer after an update came from the cache and at least one answer changed over the history; distinct = hash of the operation sequence",
+			"non-trivial = at least one answer changed over the history (how many answers came out of the cache after an update is reported, not demanded: an engine that remembers less is just as right); distinct = hash of the operation sequence",
 		Assumptions:       []string{"current objects = the objects of the successful calls so far (model state kept by the harness)", "a NetworkPolicy is updated by delete + insert (InsertObject rejects an existing name)"},
 		NumCases:          func(tier string, _ int64) int { return tierN(tier, 600, 12000) },
 		Run:               runC15,
 		RaceSliceCases:    1500,
 		MinNonTrivial:     200,
 		MinEffectiveShare: 0.5,
-		RequiredEvents: map[string]int64{"steps": 5000, "queries": 200000, "cache_hits_after_update": 5000, "answers_changed_by_a_step": 1000, "deletes_of_absent_objects": 300,
+		RequiredEvents: map[string]int64{"steps": 5000, "queries": 200000, "answers_changed_by_a_step": 1000, "deletes_of_absent_objects": 300,
 			"op_nsRelabel": 100, "op_nsDelete": 50, "op_anpInsert": 100, "op_anpDelete": 100, "op_banpInsert": 50, "op_banpDelete": 50, "op_npInsert": 100, "op_npDelete": 100,
 			"op_podRelabel": 100, "op_podDelete": 50, "op_podPorts": 50, "op_podRecreate": 50, "op_SetResources": 100, "op_clearRepopulate": 50, "histories_starting_from_the_constructor": 100, "op_failingBulkSet": 50},
 	})
@@ -663,7 +663,8 @@ func runC15(c *run.Ctx) {
 	}
 	r.Hash = fmt.Sprintf("%x", rngHash(strings.Join(st.log, ";")))
 	r.Effective = true
-	r.NonTrivial = cacheAfterUpdate && changed
+	_ = cacheAfterUpdate // reported (cache_hits_after_update), not demanded: an engine that remembers less is just as right
+	r.NonTrivial = changed
 	if c.Idx%151 == 0 || len(r.Violations) > 0 {
 		r.SetSample(map[string]interface{}{"initial_world": shortWorld(w), "history": st.log, "ports_queried": ports})
 	}
